@@ -31,6 +31,10 @@ class _SimThreadModule(types.ModuleType):
 sim_thread = _SimThreadModule('_thread')
 
 
+POOL_ROLES = ('request', 'submission', 'io', 'extra', 'legacy', 'worker',
+              'submitter', 'crt')
+
+
 def _allocate_lock():
     return SimLock()
 
@@ -45,6 +49,9 @@ def _start_new_thread(function, args, kwargs=None):
     if owner is not None:
         name = getattr(owner, '_name', None)
         role = getattr(owner, '_sim_role', None)
+        if role is None and isinstance(name, str) and '_' in name and \
+                name.split('_')[0] in POOL_ROLES:
+            role = name.split('_')[0]
         if role is None:
             tgt = getattr(owner, '_target', None)
             role = getattr(tgt, '__name__', None) or 'thread'
